@@ -45,6 +45,19 @@ prop("C10", "translation_validation",
      "fixture, then equal zkryptium byte for byte / decision for decision on generated inputs at length-prefix boundaries, on 16 threads in shuffled order; the input-limit "
      "clauses are Coq theorems.", "DESIGN.md §10 C10")
 
+prop("C11", "proof",
+     "Finite-table theorem interface_ids_separated recomputed by vm_compute over constants regenerated from ciphersuites.rs on every run (6 interface ids pairwise "
+     "prefix-free, 36 derived DSTs / seeds pairwise distinct and <= 255 bytes, P1 per suite); create_prefix for any expander and any count (induction over the seed chain); "
+     "reductions: a repeated generator, or one shared between two interface ids, is a collision of expand_message / hash_to_curve on explicit distinct inputs. Identity- / "
+     "P1-freeness are pre-image events: scanned over all created points, not proved. Cross-suite / cross-interface rejection of artefacts: correspondence + sweep (every honest "
+     "artefact replayed under every other suite / interface), history pass for state-dependent derivations.", "DESIGN.md §10 C11")
+prop("C12", "proof",
+     "update_history_inv by induction on the update list: from a valid signature, after any sequence of updates (stating the current value as old) the returned signature "
+     "verifies for the current vector with the same exponent and equals B(msgs_k)/(sk+e) (update_is_signers_signature); update_step_total: a step fails only with Err and only "
+     "when the new B is the identity; update_oob: position >= n is Err for all values (no panic: C08); update_wrong_old: a wrong old value never verifies for the intended "
+     "vector unless the two values collide under the message hash or H_i = O. Rejection of earlier vectors rests on C02's binding (sweep). Correspondence: every intermediate "
+     "signature of generated histories byte for byte.", "DESIGN.md §10 C12")
+
 WIP = "check not yet registered in this commit (machinery under construction; see DESIGN.md §10)"
 ALL = ["C%02d" % i for i in range(1, 20)]
 
